@@ -22,6 +22,8 @@
 EXTENDS Integrity, TLC, Json, SequencesExt
 
 CONSTANTS Family,    \* "art" | "cache"
+          Rule,      \* "spec": the judgement rule of Integrity.tla; "wide": every truncation that removes a covered
+                     \* byte is judged (TLC must refute AbsRuleSound: the check value may be gone with it)
           Tier,      \* "quick" | "thorough": which artifact variants
           MaxN,      \* art: number of covered cells 1..MaxN
           Comp,      \* cache: "cac_mem" | "cac_disk" | "ml"
@@ -66,7 +68,7 @@ Apply(s, f) ==
 JudgedAbs(s, f) ==
   LET R == AbsRegions(s.row.layout, s.n) IN
   CASE f.class \in {"flip", "subst"} -> FlipJudged(R, f.at)
-    [] f.class = "trunc"  -> TruncJudged(R, f.at)
+    [] f.class = "trunc"  -> IF Rule = "wide" THEN \E r \in R : f.at < r.hi ELSE TruncJudged(R, f.at)
     [] f.class = "extend" -> AbsCoversLength(s.row.layout)
 ClassAbs(s, f) ==
   LET R == AbsRegions(s.row.layout, s.n) IN
